@@ -35,6 +35,10 @@ def run(repo: Repo, rep: Report):
 
 _S = "svg"
 VARIANTS = [
+    Variant("without a view box the tolerance is taken from the content's bounding box (loads the shape cache in the middle of _simplify)",
+            [Edit(_S, "SVG._default_tolerance", "        if vbox is None:\n            return _DEFAULT_DEFAULT_TOLERENCE\n",
+                  "        if vbox is None:\n            bbox = self.bounding_box()\n            if bbox is None:\n                return _DEFAULT_DEFAULT_TOLERENCE\n            return _DEFAULT_DEFAULT_TOLERENCE\n")],
+            [("R-", "topicosvg")]),
     Variant("id strip loop deleted in _resolve_use", [Edit(_S, "SVG._resolve_use", "                for el in new_el.getiterator(\"*\"):\n                    if \"id\" in el.attrib:\n                        del el.attrib[\"id\"]\n", "")],
             [("R-SITE.copy-strips-ids", "_resolve_use")]),
     Variant("id strip restricted to children", [Edit(_S, "SVG._resolve_use", 'new_el.getiterator("*")', "new_el.iterchildren()")], [("R-SITE.copy-strips-ids", "_resolve_use")]),
